@@ -17,6 +17,9 @@ import (
 	"github.com/kercylan98/vivid/pkg/ves"
 )
 
+// maxFrameLength 单帧消息体的最大长度（4MB），超过该长度的帧会被接收方视为无效
+const maxFrameLength = 4 * 1024 * 1024
+
 func newTCPConnectionActor(client bool, conn net.Conn, advertiseAddr string, codec vivid.Codec, envelopHandler NetworkEnvelopHandler, options ...tcpConnectionActorOption) (*tcpConnectionActor, error) {
 	opts := &tcpConnectionActorOptions{}
 	for _, option := range options {
@@ -129,8 +132,13 @@ func (c *tcpConnectionActor) onReadConn(ctx vivid.ActorContext) (fatal bool, err
 	}
 
 	// 消息长度超过 4MB 则认为无效
-	if msgLen > 4*1024*1024 {
+	if msgLen > maxFrameLength {
 		ctx.Logger().Warn("invalid message length", log.Int64("length", int64(msgLen)))
+		// 必须跳过该帧所声明的消息体后再继续读取，否则其消息体会被当作后续帧的长度前缀解析，此后该连接上的所有帧都会错位
+		if _, err = io.CopyN(io.Discard, reader, int64(msgLen)); err != nil {
+			ctx.Kill(ctx.Ref(), false, err.Error())
+			return true, vivid.ErrorReadMessageBufferFailed.With(err)
+		}
 		ctx.TellSelf(c.conn)
 		return false, vivid.ErrorInvalidMessageLength.WithMessage(fmt.Sprintf("length: %d", msgLen))
 	}
